@@ -25,6 +25,7 @@ var effectFreePrefixes = []string{
 	"github.com/bloxapp/ssv/utils/format.", "golang.org/x/exp/slices.Contains", "golang.org/x/exp/maps.Keys",
 	"(*github.com/bloxapp/ssv/operator/duties.Scheduler).loggerWithSlot", "os.Getenv", "runtime.",
 	"(*github.com/herumi/bls-eth-go-binary/bls.", "github.com/herumi/bls-eth-go-binary/bls.",
+	"(github.com/bloxapp/ssv/monitoring/metricsreporter.MetricsReporter).", "(*github.com/bloxapp/ssv/monitoring/metricsreporter.",
 	"github.com/ethereum/go-ethereum/common.", "(github.com/ethereum/go-ethereum/common.", "(*math/big.Int).", "math/big.",
 }
 
